@@ -727,6 +727,13 @@ func (field *fieldDataPrecisionScale) ReadFrom(ch BytesChannel) (int, error) {
 		return n, fmt.Errorf("%T is neither of type DecNFieldFmt nor NumNFieldFmt", field.value)
 	}
 
+	// Precision and scale are taken as sent by the server - a decimal
+	// with an invalid combination cannot be used (e.g. printed).
+	if _, err := asetypes.NewDecimal(dec.Precision, dec.Scale); err != nil {
+		return n, fmt.Errorf("invalid precision %d and scale %d of decimal: %w",
+			dec.Precision, dec.Scale, err)
+	}
+
 	return n, nil
 }
 
